@@ -64,6 +64,14 @@ def make_jobs(chk):
                 n += 1
                 spk, script, ctrl = build(rng, m, rels, parity_ok=parity_ok)
                 jobs.append(mkjob(rng, "c%d:m%d:%s:par%d" % (n, m, "-".join(rels), parity_ok), spk, script, ctrl))
+    # commitments of leaves that check a real signature: the leaf hash the commitment phase hands on is the one the signature commits to
+    import gen_spend
+    for m in (0, 1, 2, 5, 16):
+        for mut in ("valid", "valid", "wrong-key", "annex"):
+            n += 1
+            c = gen_spend.SpendCase(rng, "p2tr-script", mut, 1, 0, 0, pathlen=m)
+            jobs.append(SessionJob("c%d:signed-leaf:m%d:%s" % (n, m, mut), b"", [], STANDARD, "BASE", cmds=["steps", "step", "step", "run"], cmp=gen_spend.CMP_SPEND, auto=True,
+                                   txctx={"tx": c.tx.hex(), "txin": c.funding.hex(), "select": -1}))
     # single-field corruptions of valid commitments
     for m in (0, 1, 2, 5):
         for rep in range(2 if quick else 40):
